@@ -140,7 +140,7 @@ func (s *stStore) PutMany(bs []kit.Blk) error {
 	}
 	return nil
 }
-func (s *stStore) Has(c cid.Cid) (bool, error) { return s.st.Has(drv.Ctx, c.KeyString()) }
+func (s *stStore) Has(c cid.Cid) (bool, error)   { return s.st.Has(drv.Ctx, c.KeyString()) }
 func (s *stStore) Get(c cid.Cid) ([]byte, error) { return s.st.Get(drv.Ctx, c.KeyString()) }
 func (s *stStore) Size(c cid.Cid) (int, error) {
 	b, err := s.st.Get(drv.Ctx, c.KeyString())
